@@ -153,7 +153,7 @@ VAR_NAMES = ['x', 'y1', '_z', "w'", "Ab_2'"]
 # names that differ from the reserved words only by case / a suffix (all
 # of them ordinary identifiers by the documented grammar)
 ODD_NAMES = ['Ite', 'ITE', 'tRUE', 'fALSE', 'iTe', 'TRUEx', 'ite_', 'FALSE1',
-             'True_', 'A', 'E', 'S']
+             'True_', 'A', 'E', 'S', "v''", "s'_1", "q'2'"]
 
 
 def check_formula_case(case, managers=None):
